@@ -134,23 +134,11 @@ fn median(mut price_list: Vec<Price>) -> Option<Price> {
         .get(lower_index)
         .expect("`lower_index` is a valid index");
     // Avoid overflow by halving both values first.
-    let half_high = higher_price
-        .checked_div(2)
-        .expect("can't fail as divisor is not zero");
-    let half_low = lower_price
-        .checked_div(2)
-        .expect("can't fail as divisor is not zero");
-    let sum = half_high
-        .checked_add(half_low)
-        .expect("can't fail as both operands are <= MAX/2");
-    // If `higher_price` and `lower_price` are both odd, we rounded down twice when halving them,
-    // so add 1 to the sum.
-    let median = if higher_price.get() % 2 == 1 && lower_price.get() % 2 == 1 {
-        sum.checked_add(Price::new(1))
-            .expect("can't fail as we rounded down twice while halving the prices")
-    } else {
-        sum
-    };
+    // The floor of the mean of the two middle prices, computed without overflow. Halving both prices
+    // and correcting for two odd operands is only right for non-negative values (in Rust `-3 / 2 == -1`
+    // and `-3 % 2 == -1`), and yields a value outside of `[lower_price, higher_price]` for negative ones.
+    let (low, high) = (lower_price.get(), higher_price.get());
+    let median = Price::new((low & high).wrapping_add((low ^ high) >> 1));
     Some(median)
 }
 
